@@ -11,7 +11,9 @@
 (*                   EvoGeno, and spec.validate of the code agrees)        *)
 (*   Aligned         every output node is bound to the decision point at   *)
 (*                   its position (views equal those of a rebuilt DNA)     *)
-(*   InputsUnchanged the DNAs passed in are the same afterwards            *)
+(*   InputsUnchanged the population list passed in holds the same objects  *)
+(*                   in the same order with the same decisions afterwards  *)
+(*                   (after both applications)                             *)
 (*   MembersOnly / Count / SubMultiset   for selectors                     *)
 (*   SeedDeterministic   the second run returns the same                   *)
 (*   Exact           for expressions over deterministic selectors the      *)
@@ -46,7 +48,8 @@ Clauses(sp, ev) ==
        Closed  |-> \A i \in 1..Len(ev.out) : (ops \/ ev.out[i].id = 0) => GoodDNA(sp, ev.out[i]),
        Aligned |-> \A i \in 1..Len(ev.out) : ev.out[i].aligned,
        InputsUnchanged |-> /\ Len(ev.in_after) = Len(ev.in)
-                           /\ \A i \in 1..Len(ev.in) : ev.in_after[i] = ev.in[i].dna,
+                           /\ \A i \in 1..Len(ev.in) : /\ ev.in_after[i].id = ev.in[i].id      \* same objects, same order
+                                                         /\ ev.in_after[i].dna = ev.in[i].dna,   \* same decisions
        MembersOnly |-> sel => \A i \in 1..Len(ev.out) : ev.out[i].id > 0,
        Count |-> (sel /\ ev.count >= 0) => Len(ev.out) = ev.count,
        SubMultiset |-> (sel /\ ev.submulti) => \A x \in RangeOf(OutIds(ev)) : Occ(OutIds(ev), x) <= Occ(InIds(ev), x),
